@@ -903,14 +903,9 @@ def collect_reports(plan, obs, us):
                 if not 1 <= n <= len(lines):
                     return 'row number outside file'
                 src = lines[n - 1].replace('\t', ' ' * 8)
-                if shellscen.unprotect(shellscen.strip_spans(cell)) != src:
+                if shellscen.cell_text(cell) != src:
                     return 'row %d does not show the source line' % n
-                pos = 0
-                for m in shellscen.RE_SPAN.finditer(cell):
-                    before = shellscen.unprotect(shellscen.strip_spans(
-                        cell[:m.start()]))
-                    title = shellscen.unprotect(m.group(1))
-                    hl = shellscen.unprotect(m.group(2))
+                for title, hl, before in shellscen.cell_spans(cell):
                     # column in the real line (tabs were widened to 8 blanks)
                     colx = len(before)
                     if '\t' in lines[n - 1]:
@@ -955,22 +950,22 @@ def collect_reports(plan, obs, us):
                     res[ui].append(r)
                     nreps += 1
             for n, cell in part['overlaps']:
+                if not 1 <= n <= len(lines):
+                    return 'overlap row number outside file'
                 last_title = None
-                for m in shellscen.RE_SPAN.finditer(cell):
-                    title = shellscen.unprotect(m.group(1))
-                    hl = shellscen.unprotect(m.group(2))
+                for title, hl, before in shellscen.cell_spans(cell):
                     w = word_of(title)
                     if title == last_title and res[ui] and \
                             res[ui][-1].get('overlap'):
-                        # continuation of a multi-line overlapping message
+                        # next line of a multi-line overlapping message
                         res[ui][-1]['length'] += 1 + len(hl)
                         continue
                     last_title = title
                     # an overlapping message is listed separately with its
-                    # line number; locate it through the line number
-                    if not 1 <= n <= len(lines):
-                        return 'overlap row number outside file'
-                    c = lines[n - 1].find(hl) if hl else -1
+                    # line number only (a multi-line one is one span here, its
+                    # line breaks included); locate it through the line number
+                    first = hl.split('\n')[0]
+                    c = lines[n - 1].find(first) if first else -1
                     r = {'offset': (starts[n - 1] + c) if c >= 0 else -1,
                          'length': len(hl), 'word': w, 'problems': [],
                          'overlap': True, 'line': n}
